@@ -97,6 +97,7 @@ Example C04_nonvacuous :
   written_refs wit <> written_refs (run wit wit_renum_ops) /\
   resolve (run wit wit_renum_ops) = resolve wit.
 Proof.
-  destruct wit_c04 as (A & B & C). destruct wit_renum_ops_ok as (D & E & F). repeat split; assumption.
+  destruct wit_c04 as (A & B & C). destruct wit_renum_ops_ok as (D & E & F).
+  exact (conj A (conj B (conj C (conj D (conj E F))))).
 Qed.
 Print Assumptions C04_nonvacuous.
